@@ -95,7 +95,7 @@ type c05Stream struct{}
 func (c05Stream) Name() string               { return "c05" }
 func (c05Stream) CaseTimeout() time.Duration { return 60 * time.Second }
 func (c05Stream) Rule() string {
-	return "one real server, one client connection (plain / TLS listener / StartTLS-upgraded), N pipelined search requests (N 2..400) whose handlers rendezvous and then each write K entries of S bytes (S from 10 bytes to 1 MiB, i.e. far beyond the 4 KiB write buffer) plus a SearchDone, with fast or slow readers and GOMAXPROCS 1..16; in one case of four one search stays open for 1.5 s after its entries (they must arrive without waiting for its SearchDone); in one case of eight the client sends its searches and an Unbind and starts reading 300 ms later (every frame must still arrive before the hang-up); in one case of ten the server has a write timeout and the client stalls past it in the middle of the answers, then reads on (a frame cut short by the timeout may only be the end of the stream, and successful writes = whole frames received); in one case of six the client keeps the pipeline full and Stop is called after the third frame (then every frame up to the hang-up must still be whole and in per-writer order, the notice of disconnection included); oracle: the received stream splits into whole LDAPMessages, exactly one per successful Write, per-writer order preserved, nothing duplicated or lost; the hook trace (locked/written/flushed/unlock) is replayed through the Lean writer model; non-trivial = N >= 2 writers overlapping in time, distinct by scenario"
+	return "one real server, one client connection (plain / TLS listener / StartTLS-upgraded), N pipelined search requests (N 2..400) whose handlers rendezvous and then each write K entries of S bytes (S from 10 bytes to 1 MiB, i.e. far beyond the 4 KiB write buffer) plus a SearchDone, with fast or slow readers and GOMAXPROCS 1..16; in one case of four one search stays open for 1.5 s after its entries (they must arrive without waiting for its SearchDone); in one case of eight the client sends its searches and an Unbind and starts reading 300 ms later (every frame must still arrive before the hang-up); in one case of twelve the read loops of 8..48 connections end on a malformed frame while a slow search of theirs is still handled and as many new connections bind at once (every late frame arrives on its own connection, nothing foreign on the new ones); in one case of ten the server has a write timeout and the client stalls past it in the middle of the answers, then reads on (a frame cut short by the timeout may only be the end of the stream, and successful writes = whole frames received); in one case of six the client keeps the pipeline full and Stop is called after the third frame (then every frame up to the hang-up must still be whole and in per-writer order, the notice of disconnection included); oracle: the received stream splits into whole LDAPMessages, exactly one per successful Write, per-writer order preserved, nothing duplicated or lost; the hook trace (locked/written/flushed/unlock) is replayed through the Lean writer model; non-trivial = N >= 2 writers overlapping in time, distinct by scenario"
 }
 
 func (c05Stream) Generate(rng *rand.Rand, n int, thorough bool) []Case {
@@ -121,6 +121,12 @@ func (c05Stream) Generate(rng *rand.Rand, n int, thorough bool) []Case {
 				[]int{20000, 100000}[rng.Intn(2)], modes[rng.Intn(4)], []int{2, 4, 16}[rng.Intn(3)]), Kind: "unbind"})
 			continue
 		}
+		if rng.Intn(12) == 0 {
+			// connections whose read loop ends (a malformed frame) while a slow search of theirs is still being handled,
+			// and new connections arriving at once: what the late handlers write belongs to their own connections
+			cs = append(cs, Case{Line: fmt.Sprintf("c05 n=%d k=1 size=100 mode=plain slow=0 procs=%d late=1", []int{8, 24, 48}[rng.Intn(3)], []int{2, 4, 16}[rng.Intn(3)]), Kind: "late"})
+			continue
+		}
 		if rng.Intn(10) == 0 {
 			// a server with a write timeout and a client that stalls past it in the middle of the answers and then
 			// reads on: whatever a timed-out Write left on the wire may only be the very end of the stream
@@ -140,9 +146,96 @@ func (c05Stream) Generate(rng *rand.Rand, n int, thorough bool) []Case {
 	return cs
 }
 
+// c05Late: n connections send a slow search followed by a malformed frame (their read loops end while the handler is
+// still at work); n new connections bind at once. Every frame written successfully arrives on the connection of the
+// request it answers, and nowhere else.
+func c05Late(n int) string {
+	mux, _ := gldap.NewMux()
+	_ = mux.Bind(func(w *gldap.ResponseWriter, r *gldap.Request) { answer(w, r) })
+	_ = mux.Search(func(w *gldap.ResponseWriter, r *gldap.Request) {
+		time.Sleep(40 * time.Millisecond)
+		m, _ := r.GetSearchMessage()
+		_ = w.Write(r.NewSearchResponseEntry(fmt.Sprintf("late-%d", m.GetID())))
+		_ = w.Write(r.NewSearchDoneResponse(gldap.WithResponseCode(0)))
+	})
+	sut, err := startServer(mux, nil, nil)
+	if err != nil {
+		return "harness-error start: " + err.Error()
+	}
+	defer sut.tr.ReleaseAll()
+	verdict := "ok"
+	var vmu sync.Mutex
+	fail := func(f string, a ...interface{}) {
+		vmu.Lock()
+		if verdict == "ok" {
+			verdict = fmt.Sprintf(f, a...)
+		}
+		vmu.Unlock()
+	}
+	var old []*rawClient
+	for i := 0; i < n; i++ {
+		cl, err := dialRaw(sut.addr, nil)
+		if err != nil {
+			return "harness-error connect: " + err.Error()
+		}
+		old = append(old, cl)
+		r := Req{Kind: "search", ID: int64(4000 + i), DN: "dc=x", Scope: 2, Filter: "(cn=x)"}
+		nd, _ := r.Node()
+		_ = cl.send(append(nd.Ser(), 0x30, 0x03, 0x02, 0x01, 0xff, 0xff, 0xff, 0xff))
+	}
+	var wg sync.WaitGroup
+	for i := 0; i < n; i++ {
+		wg.Add(1)
+		go func(i int) {
+			defer wg.Done()
+			cl, err := dialRaw(sut.addr, nil)
+			if err != nil {
+				fail("stream broken: a new connection was refused: %v", err)
+				return
+			}
+			defer cl.close()
+			for j := int64(0); j < 3; j++ {
+				_ = cl.send(opFrame("bind", 7000+j))
+				f, err := cl.readFrame(5 * time.Second)
+				if err != nil {
+					fail("stream broken: a new connection got no answer: %v", err)
+					return
+				}
+				if v := strictView(f); !strings.HasPrefix(v, fmt.Sprintf("result id=%d tag=1 code=0", 7000+j)) {
+					fail("writer %d: a frame of another connection arrived on a new connection: %s", 7000+j, clip(v))
+					return
+				}
+			}
+		}(i)
+	}
+	for i, cl := range old {
+		// the late frames of this connection: its entry and its done, then the end of the stream
+		want := []string{fmt.Sprintf("entry id=%d dn=%s", 4000+i, hx([]byte(fmt.Sprintf("late-%d", 4000+i)))), fmt.Sprintf("result id=%d tag=5 code=0", 4000+i)}
+		for _, w := range want {
+			f, err := cl.readFrame(5 * time.Second)
+			if err != nil {
+				fail("writer %d: a frame written successfully after the read loop ended never arrived on its connection: %v", 4000+i, err)
+				break
+			}
+			if v := strictView(f); !strings.HasPrefix(v, w) {
+				fail("writer %d: unexpected frame on its connection: %s", 4000+i, clip(v))
+				break
+			}
+		}
+		cl.close()
+	}
+	wg.Wait()
+	sut.finish()
+	return verdict + "\t" + traceString(sut.tr.Snapshot(), "w.")
+}
+
 func (c05Stream) Impl(c Case) string {
 	p := kv(c.Line)
 	n, k, size, mode := atoi(p["n"]), atoi(p["k"]), atoi(p["size"]), p["mode"]
+	if p["late"] == "1" {
+		defer runtime.GOMAXPROCS(runtime.GOMAXPROCS(atoi(p["procs"])))
+		return c05Late(n)
+	}
 	defer runtime.GOMAXPROCS(runtime.GOMAXPROCS(atoi(p["procs"])))
 	tlsConfigs()
 	mux, _ := gldap.NewMux()
